@@ -35,8 +35,8 @@ ChordOk(r) ==
           \* (a bass on the root itself may be printed as a unison or not at all)
           /\ (r.hasBase => LET b == ParseInterval(r.base) IN b.ok /\ Names(b.iv, root, IF hasBass THEN bass ELSE root))
           /\ (~r.hasBase => ~hasBass \/ bass = root)
-     ELSE /\ ~mustAccept                    \* scale notes are always accepted
-          /\ r.stderrLen > 0                        \* an error, never a different degree
+     ELSE ~mustAccept                       \* scale notes are always accepted; anything else: an error (how it looks is
+                                            \* C09's business), never a different degree
 
 RecOk(r) == CASE r.kind = "skipped" -> TRUE [] r.kind = "chord" -> ChordOk(r) [] OTHER -> FALSE
 Inv == l <= Len(Recs) => RecOk(Recs[l])
